@@ -191,3 +191,114 @@ Print Assumptions C07_per_sequence_backward.
 Theorem C07_per_choice_known_alternative : ltac:(let T := type of per_choice_known_alternative in exact T).
 Proof. exact per_choice_known_alternative. Qed.
 Print Assumptions C07_per_choice_known_alternative.
+
+(** ------------------------------------------------------------------
+    Aligned PER, the whole property at any nesting depth, for the SAME relation [extends] / projection [proj] as
+    UPER (Per/PerExtends.v), in the positional form [ERT] and at octet level. *)
+From Asn1V Require Import Per.PerExtends Per.PerExtendsEx.
+
+Theorem C07_per_forward :
+  forall numeric e1 e2 f t1 t2 v,
+    extends_strict numeric e1 e2 f t1 t2 ->
+    ERT (penc_ty numeric e2 f t2 v) (pdec_ty numeric e1 f t1)
+        (proj numeric e1 e2 f t1 t2 (pnorm numeric e2 f t2 v)).
+Proof. exact per_forward. Qed.
+Print Assumptions C07_per_forward.
+
+Theorem C07_per_backward :
+  forall numeric e1 e2 f t1 t2 v,
+    extends numeric e1 e2 f t1 t2 ->
+    ERT (penc_ty numeric e1 f t1 v) (pdec_ty numeric e2 f t2) (pnorm numeric e1 f t1 v).
+Proof. exact per_backward. Qed.
+Print Assumptions C07_per_backward.
+
+Theorem C07_per_forward_octets :
+  forall numeric e1 e2 fuel t1 t2 v data,
+    extends_strict numeric e1 e2 fuel t1 t2 ->
+    per_encode numeric fuel e2 t2 v = Ok data ->
+    forall tail, exists n,
+      per_decode numeric fuel e1 t1 (data ++ tail)%list
+      = Ok (proj numeric e1 e2 fuel t1 t2 (pnorm numeric e2 fuel t2 v), n) /\
+      (n <= 8 * length data)%nat /\ (8 * length data < n + 8)%nat.
+Proof. exact per_forward_octets. Qed.
+Print Assumptions C07_per_forward_octets.
+
+Theorem C07_per_backward_octets :
+  forall numeric e1 e2 fuel t1 t2 v data,
+    extends numeric e1 e2 fuel t1 t2 ->
+    per_encode numeric fuel e1 t1 v = Ok data ->
+    forall tail, exists n,
+      per_decode numeric fuel e2 t2 (data ++ tail)%list = Ok (pnorm numeric e1 fuel t1 v, n) /\
+      (n <= 8 * length data)%nat /\ (8 * length data < n + 8)%nat.
+Proof. exact per_backward_octets. Qed.
+Print Assumptions C07_per_backward_octets.
+
+(** ------------------------------------------------------------------
+    BER and DER (Ber/BerExt.v), per extended node (the node is the top of the decoded type): SEQUENCE and SET
+    backward and forward, CHOICE with a new alternative (unknown -> VUnknownChoice, TLV skipped; known; backward),
+    ENUMERATED with a new item (-> VNone).  DER SET forward is REFUTED inside the scope (open finding
+    der-set-addition-sorted-before-known-component), as are the nested untagged extensible CHOICE and - a new
+    finding - a valid indefinite-length version-2 encoding ([C07_ber_seq_forward_indefinite_refuted]).
+    OPEN: composition of the node theorems through containers.
+    (statements = the types of the theorems of Ber/BerExt.v; written out in notes/BER-reencode-ext.md) *)
+From Asn1V Require Ber.BerExt.
+
+Theorem C07_ber_seq_backward : ltac:(let T := type of Asn1V.Ber.BerExt.ber_seq_backward in exact T).
+Proof. exact Asn1V.Ber.BerExt.ber_seq_backward. Qed.
+Print Assumptions C07_ber_seq_backward.
+
+Theorem C07_der_seq_backward : ltac:(let T := type of Asn1V.Ber.BerExt.der_seq_backward in exact T).
+Proof. exact Asn1V.Ber.BerExt.der_seq_backward. Qed.
+Print Assumptions C07_der_seq_backward.
+
+Theorem C07_ber_seq_forward : ltac:(let T := type of Asn1V.Ber.BerExt.ber_seq_forward in exact T).
+Proof. exact Asn1V.Ber.BerExt.ber_seq_forward. Qed.
+Print Assumptions C07_ber_seq_forward.
+
+Theorem C07_ber_set_forward : ltac:(let T := type of Asn1V.Ber.BerExt.ber_set_forward in exact T).
+Proof. exact Asn1V.Ber.BerExt.ber_set_forward. Qed.
+Print Assumptions C07_ber_set_forward.
+
+Theorem C07_der_seq_forward : ltac:(let T := type of Asn1V.Ber.BerExt.der_seq_forward in exact T).
+Proof. exact Asn1V.Ber.BerExt.der_seq_forward. Qed.
+Print Assumptions C07_der_seq_forward.
+
+Theorem C07_ber_choice_forward_unknown : ltac:(let T := type of Asn1V.Ber.BerExt.ber_choice_forward_unknown in exact T).
+Proof. exact Asn1V.Ber.BerExt.ber_choice_forward_unknown. Qed.
+Print Assumptions C07_ber_choice_forward_unknown.
+
+Theorem C07_der_choice_forward_unknown : ltac:(let T := type of Asn1V.Ber.BerExt.der_choice_forward_unknown in exact T).
+Proof. exact Asn1V.Ber.BerExt.der_choice_forward_unknown. Qed.
+Print Assumptions C07_der_choice_forward_unknown.
+
+Theorem C07_ber_choice_forward_known : ltac:(let T := type of Asn1V.Ber.BerExt.ber_choice_forward_known in exact T).
+Proof. exact Asn1V.Ber.BerExt.ber_choice_forward_known. Qed.
+Print Assumptions C07_ber_choice_forward_known.
+
+Theorem C07_ber_choice_backward : ltac:(let T := type of Asn1V.Ber.BerExt.ber_choice_backward in exact T).
+Proof. exact Asn1V.Ber.BerExt.ber_choice_backward. Qed.
+Print Assumptions C07_ber_choice_backward.
+
+Theorem C07_ber_enum_forward_unknown : ltac:(let T := type of Asn1V.Ber.BerExt.ber_enum_forward_unknown in exact T).
+Proof. exact Asn1V.Ber.BerExt.ber_enum_forward_unknown. Qed.
+Print Assumptions C07_ber_enum_forward_unknown.
+
+Theorem C07_der_enum_forward_unknown : ltac:(let T := type of Asn1V.Ber.BerExt.der_enum_forward_unknown in exact T).
+Proof. exact Asn1V.Ber.BerExt.der_enum_forward_unknown. Qed.
+Print Assumptions C07_der_enum_forward_unknown.
+
+Example C07_der_set_forward_refuted : ltac:(let T := type of Asn1V.Ber.BerExt.der_set_forward_refuted in exact T).
+Proof. exact Asn1V.Ber.BerExt.der_set_forward_refuted. Qed.
+Print Assumptions C07_der_set_forward_refuted.
+
+Example C07_ber_choice_in_choice_forward_refuted : ltac:(let T := type of Asn1V.Ber.BerExt.ber_choice_in_choice_forward_refuted in exact T).
+Proof. exact Asn1V.Ber.BerExt.ber_choice_in_choice_forward_refuted. Qed.
+Print Assumptions C07_ber_choice_in_choice_forward_refuted.
+
+Example C07_ber_seq_forward_indefinite_refuted : ltac:(let T := type of Asn1V.Ber.BerExt.ber_seq_forward_indefinite_refuted in exact T).
+Proof. exact Asn1V.Ber.BerExt.ber_seq_forward_indefinite_refuted. Qed.
+Print Assumptions C07_ber_seq_forward_indefinite_refuted.
+
+Example C07_ber_forward_inhabited : ltac:(let T := type of Asn1V.Ber.BerExt.ex_forward in exact T).
+Proof. exact Asn1V.Ber.BerExt.ex_forward. Qed.
+Print Assumptions C07_ber_forward_inhabited.
